@@ -88,6 +88,55 @@ Theorem rv_plan_realises :
       /\ forallb plain_action plan = true.
 Proof. exact rv_plan_realises_lemma. Qed.
 
+(* The records rv_plan_realises plans to CREATE (ModelCreate.v; the trees are tied node by node to what
+   create_omega_single / create_omega_block return, Check tag 27).  For every float instance obeying the
+   float laws, every value, FIX flag, name and eta number:
+   - '$OMEGA  {init}[ FIX][ ; name]' is a diagonal record meaning exactly the parameter (init, fix)
+     (an unfixed 0 cannot be read back: NM-TRAN and pharmpy refuse it);
+   - '$OMEGA  BLOCK(1)\n{init}[ FIX][ ; name]' (first occasion of an IOV eta) is a BLOCK record with that one
+     value, FIX iff the parameter is fixed, not SAME;
+   - '$OMEGA  BLOCK(1) SAME' (later occasions) is SAME - but for a FIXED parameter the code writes
+     'BLOCK(1) SAME FIX', which the grammar refuses (the model returns the parse error). *)
+Theorem create_omega_single_readback :
+  forall (V : Type) (F : fops V), fops_ok F ->
+  forall (sigma : bool) (v : V) (fx : bool) (name : text) (eta : nat),
+    (forall root, fx || negb (veqb F v (vzero F)) = true ->
+       create_single_root V F sigma SPlain v fx name eta = Ok root ->
+       osem V F root = Ok [mkO v fx] /\ is_block_record root = false)
+    /\ (forall root, create_single_root V F sigma SIovFirst v fx name eta = Ok root ->
+         block_inits V F root = Ok [v] /\ block_fix root = fx /\ is_block_record root = true
+         /\ has r_same (children root) = false)
+    /\ match create_single_root V F sigma SIovSame v fx name eta with
+       | Ok root => fx = false /\ has r_same (children root) = true /\ is_block_record root = true
+       | Err _ => fx = true
+       end.
+Proof.
+  intros V F HF sigma v fx name eta. split; [|split].
+  - intros root. apply (create_single_plain_readback V F HF).
+  - intros root. apply (create_single_iov_readback V F HF).
+  - apply create_single_same_readback.
+Qed.
+
+(* '$OMEGA BLOCK(n)[ FIX]\n' followed by one element per line ('{init}'.upper(), '\t; name' unless the name is
+   the default one of its position): for every list of (value, name) - the lower triangle row by row - whose
+   values survive float(str(x).upper()) (exponents are written with 'E'; a hypothesis on the values at hand,
+   not a law of fops_ok), the record is a BLOCK record, not SAME, whose values in order are exactly the handed
+   ones and which carries FIX iff all parameters are fixed; for a later IOV occasion it is SAME. *)
+Theorem create_omega_block_readback :
+  forall (V : Type) (F : fops V), fops_ok F ->
+  forall (sigma : bool) (size : nat) (elems : list (V * text)) (allfix : bool) (eta : nat),
+    (Forall (fun e => tokval F (upper (vstr F (fst e))) = Some (fst e)) elems ->
+     let root := create_block_root V F sigma false size elems allfix eta in
+     block_inits V F root = Ok (map fst elems) /\ block_fix root = allfix /\ is_block_record root = true
+     /\ has r_same (children root) = false)
+    /\ (let root := create_block_root V F sigma true size elems allfix eta in
+        has r_same (children root) = true /\ is_block_record root = true).
+Proof.
+  intros V F HF sigma size elems allfix eta. split.
+  - apply (create_block_readback V F).
+  - apply create_block_same.
+Qed.
+
 (* "Values that were not changed keep their original spelling", for one plain theta: the init token is
    untouched whenever its value is the new value; a bound that stays is written with format_number's
    text - so it keeps its spelling exactly when it was spelled that way (Refuted.theta_refuted_respell
